@@ -17,6 +17,7 @@ SUMR = z3.Function("SumR", z3.ArraySort(z3.IntSort(), z3.RealSort()), z3.IntSort
 SUMI = z3.Function("SumI", z3.ArraySort(z3.IntSort(), z3.IntSort()), z3.IntSort(), z3.IntSort(), z3.IntSort())
 
 
+ROUND = z3.Function("round", z3.RealSort(), z3.IntSort())
 PRODI = z3.Function("ProdI", z3.ArraySort(z3.IntSort(), z3.IntSort()), z3.IntSort(), z3.IntSort(), z3.IntSort())
 
 
@@ -335,8 +336,19 @@ def call_builtin(ex, name, args, kwargs, node):
         if n > 64:
             raise OutOfSubset("itertools.product too large", node)
         return [Seq("tuple", list(t)) for t in itertools.product(*seqs)]
+    if name == "round" and len(args) == 1:
+        (x,) = args
+        if V.is_int(x):
+            return x
+        if isinstance(x, Fraction):
+            return round(x)
+        xz = V.to_z3(x, True)
+        r = ROUND(xz)
+        ex.assume(z3.And(z3.ToReal(r) >= xz - z3.RealVal("1/2"), z3.ToReal(r) <= xz + z3.RealVal("1/2")), "def:round")
+        ex.assumed.append("round(x) is a deterministic integer within 1/2 of x (ties unspecified)")
+        return r
     if name == "round":
-        raise OutOfSubset("round", node)
+        raise OutOfSubset("round with ndigits", node)
     if name == "sorted":
         raise OutOfSubset("sorted", node)
     raise OutOfSubset("builtin %s" % name, node)
